@@ -93,9 +93,13 @@ func c08Seeds(thorough bool) map[string][]*devSeed {
 			}
 			add("DHCPParseOptions", name, b[240:], om)
 		case "lldp":
-			add("lldp:ChassisTLV", name, b[:9], nil)
-			add("lldp:PortTLV", name, b[9:16], nil)
-			add("lldp:TTLTLV", name, b[16:], nil)
+			// the three TLVs, each 2 bytes of type/length and as many bytes as the 9-bit length says
+			tlv := func(off int) int { return off + 2 + (int(b[off]&1)<<8 | int(b[off+1])) }
+			c := tlv(0)
+			p := tlv(c)
+			add("lldp:ChassisTLV", name, b[:c], nil)
+			add("lldp:PortTLV", name, b[c:p], nil)
+			add("lldp:TTLTLV", name, b[p:], nil)
 		case "eth":
 			// the same frame inside a packet-in, as it reaches the controller
 			pin := corpus.PacketIn(1, corpus.Match(corpus.OxmByName("OXM_OF_IN_PORT", false, 1)), b)
@@ -111,6 +115,99 @@ func c08Seeds(thorough bool) map[string][]*devSeed {
 			add("Parse(packet-in)", "packet-in carrying "+name, fb, pm)
 		}
 	})
+	// long chains: an endpoint may repeat extension headers, options, records and TLVs as often as the
+	// frame has room for; the decoders follow them one by one, so the number of steps is a dimension of
+	// its own (a bound on it, a table indexed by it, a slot reused by it show only beyond some count)
+	depths := []int{4, 7, 8, 9, 16, 33}
+	if thorough {
+		depths = nil
+		for k := 4; k <= 64; k++ {
+			depths = append(depths, k)
+		}
+		depths = append(depths, 100, 180)
+	}
+	for _, k := range depths {
+		mk := map[string]func(i int) *wire.N{
+			"hop-by-hop": func(int) *wire.N { return corpus.Hbh(0, corpus.Option(1, 4)) },
+			"routing":    func(int) *wire.N { return corpus.Routing(0, 0) },
+			"fragment":   func(i int) *wire.N { return corpus.Fragment(0, uint64(i), 1) },
+		}
+		mk["mixed"] = func(i int) *wire.N { return mk[[]string{"hop-by-hop", "routing", "fragment"}[i%3]](i) }
+		for _, kind := range []string{"hop-by-hop", "routing", "fragment", "mixed"} {
+			var chain []*wire.N
+			for i := 0; i < k; i++ {
+				chain = append(chain, mk[kind](i))
+			}
+			for _, fin := range []struct {
+				nh uint64
+				n  *wire.N
+			}{{58, corpus.Icmp(128, 4)}, {59, nil}} {
+				var pl *wire.N
+				if fin.n != nil {
+					pl = fin.n.Clone()
+				}
+				ip := corpus.IPv6(chain, fin.nh, pl)
+				b, marks := pkt.Encode(ip)
+				name := fmt.Sprintf("ipv6 with a chain of %d %s extension headers ending in next-header %d", k, kind, fin.nh)
+				add("decode:ipv6", name, b, marks)
+				if fin.nh == 58 {
+					eb, em := pkt.Encode(corpus.Eth(nil, 0x86dd, ip.Clone()))
+					add("decode:eth", "eth carrying "+name, eb, em)
+					fb, _ := wire.Encode(corpus.PacketIn(1, corpus.Match(corpus.OxmByName("OXM_OF_IN_PORT", false, 1)), eb))
+					off := len(fb) - len(eb)
+					var pm []wire.Mark
+					for _, m := range em {
+						m.Off += off
+						pm = append(pm, m)
+					}
+					add("Parse(packet-in)", "packet-in carrying "+name, fb, pm)
+				}
+			}
+		}
+		// k hop-by-hop options in one header, k DHCP options, k IGMPv3 group records
+		var opts []*wire.N
+		for i := 0; i < k; i++ {
+			opts = append(opts, corpus.Option(uint64(5+i%3), 2))
+		}
+		if k%2 == 1 { // 2 + 4k is 6 mod 8: two more bytes fill the header; otherwise six more
+			opts = append(opts, corpus.Option(1, 0))
+		} else {
+			opts = append(opts, corpus.Option(1, 4))
+		}
+		if 2+4*len(opts) <= 2048 {
+			b, marks := pkt.Encode(corpus.Hbh(59, opts...))
+			add("decode:hbh", fmt.Sprintf("hop-by-hop header with %d options", len(opts)), b, marks)
+		}
+		var recs []*wire.N
+		for i := 0; i < k; i++ {
+			recs = append(recs, corpus.GroupRec(uint64(1+i%6), i%3))
+		}
+		{
+			b, marks := pkt.Encode(corpus.Igmp3Report(recs...))
+			add("decode:igmp3r", fmt.Sprintf("igmpv3 report with %d group records", k), b, marks)
+			b, marks = pkt.Encode(corpus.Igmp3Query(k, 1, 2))
+			add("decode:igmp3q", fmt.Sprintf("igmpv3 query with %d sources", k), b, marks)
+			b, marks = pkt.Encode(corpus.GroupRec(2, k))
+			add("decode:grouprec", fmt.Sprintf("group record with %d sources", k), b, marks)
+		}
+		var dopts []*wire.N
+		for i := 0; i < k; i++ {
+			dopts = append(dopts, corpus.DhcpOpt(uint64(1+i%60), 1+i%3))
+		}
+		dopts = append(dopts, corpus.DhcpOpt(255, 0))
+		{
+			b, marks := pkt.Encode(corpus.Dhcp(dopts...))
+			add("decode:dhcp", fmt.Sprintf("dhcp with %d options", k), b, marks)
+			var om []wire.Mark
+			for _, m := range marks {
+				if m.Off >= 240 {
+					m.Off -= 240
+					om = append(om, m)
+				}
+			}
+			add("DHCPParseOptions", fmt.Sprintf("%d dhcp options", k), b[240:], om)
+		}
+	}
 	if thorough {
 		// jumbo payloads for the proportionality clauses
 		for _, n := range []*wire.N{corpus.Eth(nil, 0x0800, corpus.IPv4(17, 0, corpus.Udp(8972))), corpus.Eth(corpus.Vlan(1, 0, 5), 0x86dd, corpus.IPv6(nil, 58, corpus.Icmp(128, 8952))), corpus.Icmp(8, 8996), corpus.Tcp(8980)} {
